@@ -1,5 +1,11 @@
 /- Helper lemmas for C17 (c): LimitSkipTracker window and the parallelNodeQuery range partition. -/
 import Dawgs.Model.C17Seq
+import Dawgs.Spec.C17
+import Batteries.Data.List.Perm
+import Mathlib.Data.List.Nodup
+set_option linter.unusedTactic false
+set_option linter.unreachableTactic false
+set_option linter.unnecessarySeqFocus false
 set_option linter.unusedSimpArgs false
 namespace Dawgs.C17.Seq
 
@@ -203,5 +209,110 @@ theorem loop_out (p : Plan) (fuel : Nat) (st : St) (h : TInv st.tracker) :
         simp only [happ.2, offer_atLimit _ hinv hat, List.append_nil]
       · rw [ih _ hinv]
         simp only [if_neg hat, happ.2, List.append_assoc]
+
+/-! ### TraversePaths: the stack DFS visits the path tree in the order of the recursive definition -/
+
+theorem events_nil (p : Plan) (F : Nat) (v : List Nat) : events p F { stack := [], visited := v } = [] := by
+  cases F <;> simp [events, iterCore]
+
+theorem iterCore_paths (p : Plan) (hp : p.helper = .paths) (next : Seg) (below : List Seg) (v : List Nat) :
+    iterCore p { stack := next :: below, visited := v } =
+      some ({ stack := (pathKids p next).reverse ++ below, visited := v },
+            if (pathKids p next).isEmpty && decide (next.depth > 0) && optAccept p.pathFilter next then [next] else []) := by
+  have hk : (expandNext p v next).2.filter (pushOK p) = pathKids p next := by
+    have hf : pushOK p = fun c => optAccept p.descentFilter c && !c.isCycle := by
+      funext c; simp [pushOK, hp]
+    simp [expandNext, Plan.acyclic, hp, pathKids, hf]
+  have hv : (expandNext p v next).1 = v := by simp [expandNext, Plan.acyclic, hp]
+  have ho : (expandNext p v next).2.filter (offeredByDescent p) = [] := by
+    simp [offeredByDescent, hp]
+  simp only [iterCore, hk, hv, ho, List.nil_append, offeredByVisit, hp]
+  simp
+
+theorem events_step_paths (p : Plan) (hp : p.helper = .paths) (F : Nat) (next : Seg) (below : List Seg) (v : List Nat) :
+    events p (F + 1) { stack := next :: below, visited := v } =
+      (if (pathKids p next).isEmpty && decide (next.depth > 0) && optAccept p.pathFilter next then [next] else []) ++
+        events p F { stack := (pathKids p next).reverse ++ below, visited := v } := by
+  show (match iterCore p { stack := next :: below, visited := v } with
+        | none => [] | some (c', off) => off ++ events p F c') = _
+  rw [iterCore_paths p hp]
+
+/-- a stack prefix whose segments all fit is consumed in finitely many steps, emitting their specs in order -/
+theorem events_stack (p : Plan) (d : Nat)
+    (ih : ∀ seg, Fits p d seg → ∃ n, ∀ F below v,
+      events p (n + F) { stack := seg :: below, visited := v } = pathsSpec p d seg ++ events p F { stack := below, visited := v }) :
+    ∀ ks : List Seg, (∀ k ∈ ks, Fits p d k) → ∃ n, ∀ F below v,
+      events p (n + F) { stack := ks ++ below, visited := v } =
+        ks.flatMap (pathsSpec p d) ++ events p F { stack := below, visited := v } := by
+  intro ks
+  induction ks with
+  | nil => intro _; exact ⟨0, fun F below v => by simp⟩
+  | cons k ks ihk =>
+    intro hfit
+    obtain ⟨n1, h1⟩ := ih k (hfit k (List.mem_cons_self ..))
+    obtain ⟨n2, h2⟩ := ihk (fun x hx => hfit x (List.mem_cons_of_mem _ hx))
+    refine ⟨n1 + n2, fun F below v => ?_⟩
+    have e : n1 + n2 + F = n1 + (n2 + F) := by omega
+    rw [e, List.cons_append, h1 (n2 + F) (ks ++ below) v, h2 F below v]
+    simp [List.flatMap_cons, List.append_assoc]
+
+theorem events_subtree (p : Plan) (hp : p.helper = .paths) :
+    ∀ d seg, Fits p d seg → ∃ n, ∀ F below v,
+      events p (n + F) { stack := seg :: below, visited := v } = pathsSpec p d seg ++ events p F { stack := below, visited := v } := by
+  intro d
+  induction d with
+  | zero => intro seg h; exact absurd h (by simp [Fits])
+  | succ d ih =>
+    intro seg hfit
+    obtain ⟨n, hn⟩ := events_stack p d ih (pathKids p seg).reverse (fun k hk => hfit k (List.mem_reverse.mp hk))
+    refine ⟨n + 1, fun F below v => ?_⟩
+    have e : n + 1 + F = (n + F) + 1 := by omega
+    rw [e, events_step_paths p hp, hn F below v]
+    unfold pathsSpec
+    cases hk : (pathKids p seg).isEmpty
+    · simp [hk]
+    · have : pathKids p seg = [] := List.isEmpty_iff.mp hk
+      simp [hk, this]
+
+/-! finite graphs fit -/
+
+theorem pathNodes_descend (s : Seg) (e n : Nat) : (s.descend e n).pathNodes = s.pathNodes ++ [n] := by
+  simp [Seg.descend, Seg.pathNodes]
+
+theorem isCycle_descend (s : Seg) (e n : Nat) : (s.descend e n).isCycle = decide (n ∈ s.pathNodes) := by
+  simp only [Seg.descend, Seg.isCycle, Seg.pathNodes]
+  rw [Bool.eq_iff_iff]
+  simp only [Bool.or_eq_true, beq_iff_eq, List.any_eq_true, decide_eq_true_eq, List.mem_cons, List.mem_map,
+    List.mem_reverse]
+
+theorem depth_eq (s : Seg) : s.depth + 1 = s.pathNodes.length := by simp [Seg.depth, Seg.pathNodes]
+
+/-- on a graph whose node ids are all below `N`, every acyclic path fits in depth `N + 1` -/
+theorem fits_of_bounded (p : Plan) (N : Nat) (hadj : ∀ n, ∀ e ∈ p.adj n, e.2 < N) :
+    ∀ d (seg : Seg), seg.pathNodes.Nodup → (∀ x ∈ seg.pathNodes, x < N) → N ≤ seg.depth + d → Fits p d seg := by
+  intro d
+  induction d with
+  | zero =>
+    intro seg hnd hlt hN
+    have hsub : seg.pathNodes ⊆ List.range N := fun x hx => List.mem_range.mpr (hlt x hx)
+    have := (List.subperm_of_subset hnd hsub).length_le
+    have := depth_eq seg
+    simp at *; omega
+  | succ d ih =>
+    intro seg hnd hlt hN k hk
+    simp only [pathKids, List.mem_filter, List.mem_map, Bool.and_eq_true, Bool.not_eq_true'] at hk
+    obtain ⟨⟨e, he, rfl⟩, _, hcyc⟩ := hk
+    rw [isCycle_descend] at hcyc
+    have hnot : e.2 ∉ seg.pathNodes := by simpa using hcyc
+    apply ih
+    · rw [pathNodes_descend]
+      exact List.nodup_append.mpr ⟨hnd, List.nodup_singleton _, by
+        intro a ha b hb; simp at hb; subst hb; intro h; subst h; exact hnot ha⟩
+    · rw [pathNodes_descend]; intro x hx
+      rcases List.mem_append.mp hx with h | h
+      · exact hlt x h
+      · simp at h; subst h; exact hadj _ e he
+    · have : (seg.descend e.1 e.2).depth = seg.depth + 1 := by simp [Seg.descend, Seg.depth]
+      omega
 
 end Dawgs.C17.Seq
